@@ -49,10 +49,15 @@ pub fn generate(seed: u64, thorough: bool, sink: &mut Sink) -> Vec<String> {
                    1 => match k { "u8" => "256", "u16" => "65536", "u32" => "4294967296", "i8" => "128", _ => "9007199254740992" }.to_string(),
                    _ => { let l = 1 + rng.below(6) as usize; digits(&mut rng, l, 10, false) } };
                  sp.push((format!("{}{}", v, k), "typed")); }
-      9 | 10 => { let a = 1 + rng.below(4) as usize; let b = 1 + rng.below(3) as usize;
-                  let d = if rng.chance(1, 8) { "0".to_string() } else { digits(&mut rng, b, 10, false) };
-                  let nn = digits(&mut rng, a, 10, false);
-                  sp.push((format!("{}/{}", nn, d), "rational")); }
+      9 | 10 => { // numerators and denominators of every length an i64 holds (one in three beyond 2^53, where a
+                  // detour through a double would lose digits), with and without digit groups
+                  let long = rng.chance(1, 3);
+                  let a = if long { 16 + rng.below(3) as usize } else { 1 + rng.below(4) as usize };
+                  let b = if long && rng.chance(1, 2) { 16 + rng.below(3) as usize } else { 1 + rng.below(3) as usize };
+                  let us = rng.chance(1, 6);
+                  let d = if rng.chance(1, 8) { "0".to_string() } else { digits(&mut rng, b, 10, us) };
+                  let nn = digits(&mut rng, a, 10, us);
+                  sp.push((format!("{}/{}", nn, d), if long { "rational-long" } else { "rational" })); }
       _ => { sp.push((format!("{}", rng.below(1000)), "integer")); }
     }
   }
@@ -85,7 +90,7 @@ pub fn generate(seed: u64, thorough: bool, sink: &mut Sink) -> Vec<String> {
   }
   // the spellings the specification and the reference page give as examples
   for s in ["123", "1_000", "1.5", ".5", "1e3", "1e-3", "3e2", "1.5e3", "1.5e+3", "1.5e-3", "1.1e2", "6.022e23", "0xff", "0xFF", "0o17", "0b1011", "0d99",
-            "255u8", "256u8", "7i8", "3f32", "1/2", "2/4", "10/4", "1/0", "0/5", "9007199254740993u64", "0xff_ff", "0x7fffffffffffffff", "0x8000000000000000",
+            "255u8", "256u8", "7i8", "3f32", "1/2", "2/4", "10/4", "1/0", "0/5", "9007199254740993/2", "1/9007199254740993", "1234567890123456789/10", "9223372036854775807/3", "9007199254740993u64", "0xff_ff", "0x7fffffffffffffff", "0x8000000000000000",
             "4.9e-324", "1.7976931348623157e308", "0.30000000000000004", "12345678901234567890"] {
     sp.push((s.to_string(), "specified-example"));
   }
